@@ -151,6 +151,12 @@ func checkC17(c C17Case, o *h.Obs) *h.Fail {
 		if got.Malformed != "" {
 			return h.Failf("malformed", "%v", got)
 		}
+		// the decoded value must be the receiver's own: still there after unrelated operations have cycled the
+		// library's scratch buffers
+		h.DisturbPool()
+		if again := h.Read(z); !again.SameAll(got) {
+			return h.Failf("unstable", "decoded %v, but after unrelated divisions and products on other variables the receiver reads %v", got, again)
+		}
 		if c.Z == nil || c.Z.P == 0 {
 			o.Label("rt:into-prec0")
 			if !got.Val().Equal(xv) || got.Prec != before.Prec || got.Mode != before.Mode || got.Acc != before.Acc {
@@ -192,6 +198,12 @@ func checkC17(c C17Case, o *h.Obs) *h.Fail {
 		if got.Malformed != "" {
 			return h.Failf("malformed", "GobDecode(% x) err=%v left %v", h.FirstBytes(payload, 40), err, got)
 		}
+		if c.Kind == "mut" {
+			h.DisturbPool()
+			if again := h.Read(z); !again.SameAll(got) {
+				return h.Failf("unstable", "GobDecode(% x) left %v, but after unrelated operations on other variables the receiver reads %v", h.FirstBytes(payload, 40), got, again)
+			}
+		}
 		if err != nil {
 			o.Label("rejected")
 			if !got.SameAll(before) && len(payload) != 0 {
@@ -220,7 +232,7 @@ func checkC17(c C17Case, o *h.Obs) *h.Fail {
 	return h.Failf("bad-case", "kind %q", c.Kind)
 }
 
-const ruleC17 = "rapid-generated cases. (rt) any Decimal with any attributes (precision >= MinPrec up to MaxPrec, six modes, accuracies Below/Exact/Above reached through real roundings, clean and dirty zeros/infinities, up to 800 / 6000 digits) -> GobEncode -> GobDecode, directly or through an encoding/gob stream, into a zero-value receiver (every attribute must be identical) or into a receiver with non-zero precision smaller / equal / larger than x's digits and its own mode and previous contents (precision and mode kept, value == x rounded once to them, matching accuracy); JSON streams for value and sign. (mut) a valid encoding with one mutation: byte set, truncation at any length, extension, header byte (form 3, modes 6-7, accuracy code 3), precision field (0, below the digit count, near 2^32), exponent field extremes, a mantissa word replaced by 0 / 10^19 / 2^64-1 / 10^18-1 .... (raw) arbitrary bytes biased towards version 1 + finite form. Oracle for mut/raw: no panic; afterwards the receiver is canonical with valid form/mode/accuracy codes whether or not an error was returned; an accepted payload's value re-encodes and decodes to itself. Non-trivial = (rt) finite multi-word value or rounding by the receiver; (mut/raw) payload that reaches mantissa parsing (length >= 10, version 1, finite form)."
+const ruleC17 = "rapid-generated cases. (rt) any Decimal with any attributes (precision >= MinPrec up to MaxPrec, six modes, accuracies Below/Exact/Above reached through real roundings, clean and dirty zeros/infinities, up to 800 / 6000 digits) -> GobEncode -> GobDecode, directly or through an encoding/gob stream, into a zero-value receiver (every attribute must be identical) or into a receiver with non-zero precision smaller / equal / larger than x's digits and its own mode and previous contents (precision and mode kept, value == x rounded once to them, matching accuracy); JSON streams for value and sign. (mut) a valid encoding with one mutation: byte set, truncation at any length, extension, header byte (form 3, modes 6-7, accuracy code 3), precision field (0, below the digit count, near 2^32), exponent field extremes, a mantissa word replaced by 0 / 10^19 / 2^64-1 / 10^18-1 .... (raw) arbitrary bytes biased towards version 1 + finite form. After every (rt) and (mut) decode a fixed batch of unrelated divisions, products and a square root on private variables cycles the library's pooled scratch buffers and the receiver is read again: it must not have changed. Oracle for mut/raw: no panic; afterwards the receiver is canonical with valid form/mode/accuracy codes whether or not an error was returned; an accepted payload's value re-encodes and decodes to itself. Non-trivial = (rt) finite multi-word value or rounding by the receiver; (mut/raw) payload that reaches mantissa parsing (length >= 10, version 1, finite form)."
 
 var propC17 = &h.Prop[C17Case]{ID: "C17", Rule: ruleC17, Gen: genC17, Check: checkC17, Matchers: map[string]func(C17Case) bool{}}
 
